@@ -757,7 +757,9 @@ func (self *Fork) cleanChunkTemp(partial *PartialVdrKillReport) *PartialVdrKillR
 	files := make([]string, 0, len(self.chunks))
 	var start time.Time
 	for _, chunk := range self.chunks {
-		if tempPaths, err := chunk.metadata.enumerateTemp(); err != nil {
+		// A chunk with no temp directory (e.g. the stage code removed its own
+		// TMPDIR) must not prevent cleaning up after the other chunks.
+		if tempPaths, err := chunk.metadata.enumerateTemp(); err != nil && !os.IsNotExist(err) {
 			return partial
 		} else if filesPaths, err := chunk.metadata.enumerateFiles(); err != nil {
 			return partial
